@@ -100,8 +100,13 @@ class Block(Entity):
                 extcreated = True
             mtag = MultiTag.create_new(self.file, self, multi_tags,
                                        name, type_, positions)
+            if extents is not None:
+                mtag.extents = extents
         except Exception as exp:
             msg = "MultiTag Creation Failed"
+            if name in multi_tags:
+                # a multi-tag whose positions were refused
+                multi_tags.delete(name)
             if poscreated:
                 del self.data_arrays["{}-positions".format(name)]
             else:
@@ -113,8 +118,6 @@ class Block(Entity):
             print(msg)
             raise exp
 
-        if extents is not None:
-            mtag.extents = extents
         return mtag
 
     # Tag
